@@ -15,7 +15,7 @@ func init() {
 		Assumptions: []string{
 			"layout dimensions (CSRC count {0,1,2,15}, extension configuration, payload length {0..5,100,1200}, padding {none,1,2,4,255}) are taken in full product; fixed header fields are taken from 4 presets in the layout product and in full product of their own alphabets over 8 representative layouts",
 			"one-byte blocks: 0-3 elements with ids from {1,2,7,14} and lengths {1,2,3,4,15,16}, plus the full 14-element block; two-byte blocks: 0-3 elements, ids {1,14,15,16,255}, lengths {0,1,2,3,16,17,254,255}; legacy: 5 profiles x {0,1,2,64} words (quick tier: 3-element blocks use 3-value alphabets)",
-			"a further scenario covers 4-14 one-byte elements and 4-12 two-byte elements (ids 1..n resp. spread over 1..255, three length patterns each, incl. blocks longer than 255 and 1020 bytes) x CSRC {0,15} x payload lengths {0,1,1201,4097,65000} x padding {none,255}; anything beyond (payloads above 65000 bytes, other id sets) is outside the bound",
+			"a further scenario covers 4-14 one-byte elements and 4-12 two-byte elements (ids 1..n resp. spread over 1..255, three length patterns each, incl. blocks longer than 255 and 1020 bytes) x CSRC {0,15} x payload lengths {0,1,9,1201,4097,65000} with position-dependent / all-zero / all-FF content x padding {none,255}; legacy blocks of 16383-65535 words (64 KiB and more) and the largest two-byte block (255 elements of 255 bytes); anything beyond (payloads above 65000 bytes, other id sets) is outside the bound",
 		},
 		Scenarios: []mc.Scenario{
 			{Name: "layout-product", Tiers: "qt", ShardDepth: 4, Run: c01Layout},
@@ -166,9 +166,31 @@ func c01Large(c *mc.Ctx) {
 			p.CSRC = append(p.CSRC, 0x01010101*uint32(i+1))
 		}
 	}
-	twoByte := c.Bool()
+	kind := c.Pick(4) // 0 many one-byte elements, 1 many two-byte elements, 2 huge legacy block, 3 the largest two-byte block
+	twoByte := kind == 1
 	pat := c.Pick(3)
-	if !twoByte {
+	content := c.Pick(3) // payload content: position dependent, all zero, all 0xFF
+	if kind == 2 {
+		words := mc.From(c, []int{16383, 16384, 16385, 40000, 65535})
+		prof := mc.From(c, []uint16{0x1234, 0x0000})
+		p.Extension, p.ExtensionProfile = true, prof
+		w.setProfile(prof)
+		v := fill(4*words, 0x3C)
+		if err := p.SetExtension(0, v); err != nil {
+			c.Failf("setextension-refused", "legacy SetExtension(0,%dB): %v", len(v), err)
+		}
+		w.w.Legacy = clone(v)
+	} else if kind == 3 {
+		w.setProfile(0x1000)
+		p.Extension, p.ExtensionProfile = true, 0x1000
+		for i := 1; i <= 255; i++ {
+			v := fill(255-pat*(i%3), byte(i))
+			if err := p.SetExtension(uint8(i), v); err != nil {
+				c.Failf("setextension-refused", "SetExtension(%d,%dB): %v", i, len(v), err)
+			}
+			w.addElem(uint8(i), clone(v))
+		}
+	} else if !twoByte {
 		n := 4 + c.Pick(11)
 		w.setProfile(0xBEDE)
 		if c.Bool() {
@@ -196,9 +218,14 @@ func c01Large(c *mc.Ctx) {
 			w.addElem(id, clone(v))
 		}
 	}
-	pl := mc.From(c, []int{0, 1, 1201, 4097, 65000})
+	pl := mc.From(c, []int{0, 1, 9, 1201, 4097, 65000})
 	if pl > 0 {
 		p.Payload = fill(pl, 0x23)
+		if content > 0 {
+			for i := range p.Payload {
+				p.Payload[i] = []byte{0, 0x00, 0xFF}[content]
+			}
+		}
 	}
 	if c.Bool() {
 		p.Padding, p.PaddingSize = true, 255
